@@ -329,10 +329,12 @@ def builder_close_table(prog, chk):
             if had_tlv and fail in ("KSI_TLV_new", "KSI_TlvTemplate_construct"):
                 continue
             freed = []
+            made = []
 
             def mk(name):
-                def f(I, p, node, args):
+                def f(I, p, node, args, made=made):
                     if name == "KSI_TLV_new" and fail != name:
+                        made.append(1)
                         a = strip(node["a"][-1])
                         I.write(p, I.canon(p, lvalue_key(a["e"], I.fn)), Ptr("NEWTLV"))
                     if name == "KSI_Signature_clone" and fail != name:
@@ -357,7 +359,8 @@ def builder_close_table(prog, chk):
             q = paths[0]
             tlv_now = I.read(q, "SIG->baseTlv")
             before = Ptr("OLDTLV") if had_tlv else 0
-            created = (not had_tlv) and fail not in steps[:4]
+            # whether this call created a TLV is observed (the order of the steps is the source's business)
+            created = bool(made)
             if fail is None:
                 out = [t[2] for t in q.stores("*" + sp)]
                 ok = q.ret == 0 and out[-1:] == [Ptr("SIG")] and I.read(q, "B->sig") == 0 and not freed
